@@ -494,3 +494,96 @@ def gen_capi(tier, seed):
             cases.append("CDY c%d %s | %s | %s" % (cid, ty, " ".join(bulk), " ".join(ops)))
             stats["cdy"] += 1
     return cases, stats
+
+
+# ---------------------------------------------------------------- C20: the malformed stream
+def gen_reject(tier, seed):
+    """inputs violating one documented precondition, at every position where the violation can occur, mixed with valid ones"""
+    rng = random.Random(seed * 122949829 + 51)
+    cases, stats = [], {"kind": {}}
+    def add(kind, line):
+        cases.append(line); stats["kind"][kind] = stats["kind"].get(kind, 0) + 1
+    reps = 2 if tier == "quick" else 12
+    cid = 0
+    for rep in range(reps):
+        # static indexes: reserved value (sorted data => it is last; also with duplicates of it)
+        for cfg in idx_configs()[::3]:
+            lo, hi = krange(cfg["kbits"], cfg["signed"])
+            n = rng.choice([1, 2, 5, 40, 300])
+            keys = gen_keys(rng, cfg["kbits"], cfg["signed"], n, cfg["eps"], rng.choice(STYLES))
+            bad = keys[:-1] + [hi] * rng.choice([1, 1, 3]) if rng.random() < 0.7 else keys
+            cid += 1; add("idx", idx_case("j%d" % cid, cfg, 1, sorted(bad), [bad[0]]))
+        for cfg in var_configs("BK")[::2]:
+            lo, hi = krange(cfg["kbits"], 0)
+            keys = gen_keys(rng, cfg["kbits"], 0, rng.choice([1, 3, 50]), cfg["eps"], "dense")
+            bad = sorted(keys + [hi]) if rng.random() < 0.7 else keys
+            cid += 1; add("bkt", "BKT j%d %s %d %d %d %d %d | %s | %s" % (cid, cfg["name"], cfg["kbits"], cfg["eps"], cfg["tls"], cfg["tlbs"], cfg["fdouble"], " ".join(map(str, bad)), bad[0]))
+        for cfg in var_configs("EF")[::2]:
+            lo, hi = krange(cfg["kbits"], 0)
+            keys = gen_keys(rng, cfg["kbits"], 0, rng.choice([1, 3, 50]), cfg["eps"], "sparse")
+            bad = sorted(keys + [hi]) if rng.random() < 0.7 else keys
+            cid += 1; add("efi", "EFI j%d %s %d %d %d | %s | %s" % (cid, cfg["name"], cfg["kbits"], cfg["eps"], cfg["fdouble"], " ".join(map(str, bad)), bad[0]))
+        for cfg in map_configs()[::2]:
+            lo, hi = krange(cfg["kbits"], cfg["signed"])
+            keys = gen_keys(rng, cfg["kbits"], cfg["signed"], rng.choice([1, 4, 60]), cfg["eps"], "clustered")
+            bad = sorted(keys + [hi]) if rng.random() < 0.7 else keys
+            cid += 1; add("map", "MAP j%d %s %d %d %d %d %d | %s | %s" % (cid, cfg["name"], cfg["kbits"], cfg["signed"], cfg["eps"], cfg["epsrec"], cfg["fdouble"], " ".join(map(str, bad)), bad[0]))
+        for ty, (kb, sg) in CTYPES.items():
+            lo, hi = krange(kb, sg)
+            keys = gen_keys(rng, kb, sg, rng.choice([1, 5, 80]), 4, "dense")
+            bad = sorted(keys + [hi]) if rng.random() < 0.7 else keys
+            cid += 1; add("cix", "CIX j%d %s %d | %s | %s" % (cid, ty, rng.choice([1, 4, 64]), " ".join(map(str, bad)), bad[0]))
+        # multidimensional: a coordinate too wide for the encoder, at every position of the point list / tuple
+        for cfg in multi_configs():
+            D = cfg["dims"]; fb = cfg["tbits"] // D; cmax = (1 << (fb - 1)) - 1
+            pts = [[rng.randint(0, min(cmax, 50)) for _ in range(D)] for _ in range(rng.randint(1, 12))]
+            if rng.random() < 0.75:
+                i, j = rng.randrange(len(pts)), rng.randrange(D)
+                pts[i][j] = rng.choice([cmax + 1, (1 << fb) - 1, cmax + rng.randint(1, 1000)])
+            cid += 1; add("mul", "MUL j%d %s %d %d %d %d | %s | 0:0/1:1 | %s |" % (cid, cfg["name"], D, cfg["tbits"], cfg["eps"], cfg["epsrec"], " ".join(":".join(map(str, p)) for p in pts), ":".join(["0"] * D)))
+        # dynamic: unsorted pair anywhere in the bulk range, base not a power of two, reserved mapped value anywhere in a history, lo > hi
+        for cfg in dyn_configs():
+            lo, hi = krange(cfg["kbits"], cfg["signed"])
+            n = rng.choice([2, 3, 10, 60])
+            ks = sorted(rng.randint(lo, lo + 500) for _ in range(n))
+            mode = rng.choice(["unsorted", "base", "reserved_bulk", "ok"])
+            base, bulk = rng.choice([2, 4, 8, 16]), ["%d:%d" % (k, rng.randrange(1000)) for k in ks]
+            if mode == "unsorted":
+                i = rng.randrange(n - 1)
+                if ks[i] == ks[i + 1]: ks[i + 1] += 1
+                ks[i], ks[i + 1] = ks[i + 1], ks[i]
+                bulk = ["%d:%d" % (k, rng.randrange(1000)) for k in ks]
+            elif mode == "base": base = rng.choice([3, 5, 6, 7, 12, 100, 255])
+            elif mode == "reserved_bulk" and cfg["vkind"] == "a":
+                ks = sorted(set(ks)); bulk = ["%d:%d" % (k, rng.randrange(1000)) for k in ks]
+                i = rng.randrange(len(ks)); bulk[i] = "%d:4294967295" % ks[i]
+            cid += 1
+            add("dyn-" + mode, "DYN j%d %s %d %d %s %d %d %d %d %d | %s | F:%d B" % (cid, cfg["name"], cfg["kbits"], cfg["signed"], cfg["vkind"], base, 1, 2, cfg["eps"], cfg["epsrec"], " ".join(bulk), ks[0]))
+        # the builder: non-increasing key inside a segment at every position, negative epsilon
+        for kb, sg in ((32, 0), (64, 1), (64, 0), (32, 1)):
+            lo, hi = krange(kb, sg)
+            n = rng.randint(2, 30)
+            xs = sorted(rng.sample(range(max(lo, -1000), max(lo, -1000) + 5000), n))
+            pts = [(x, i) for i, x in enumerate(xs)]
+            eps = rng.choice([0, 1, 4, 64, -1, -7])
+            if rng.random() < 0.7:
+                i = rng.randrange(1, n)
+                pts[i] = (pts[i - 1][0] - rng.choice([0, 0, 1, 5]), pts[i][1])
+            cid += 1; add("pla", "PLA j%d %d %d %d | %s" % (cid, kb, sg, eps, " ".join("%d:%d" % p for p in pts)))
+    d, _ = gen_dyn(tier, seed + 17, reject=True)
+    for l in d[: (12 if tier == "quick" else 200)]:
+        t = l.split(" ", 2); t[1] = "jh" + t[1]
+        add("dyn-history", " ".join(t))
+    return cases, stats
+
+def gen_all(tier, seed, scale=0.34):
+    """a slice of every component's quick stream (for the cross-cutting properties C16/C17/C19)"""
+    rng = random.Random(seed)
+    out, stats = [], {}
+    for name, (cs, st) in (("idx", gen_idx(tier, seed, want_big=False)), ("seg", gen_seg(tier, seed)), ("dyn", gen_dyn(tier, seed)),
+                           ("bkt", gen_var(tier, seed, "BK")), ("efi", gen_var(tier, seed, "EF")), ("map", gen_map(tier, seed)),
+                           ("mul", gen_multi(tier, seed)), ("capi", gen_capi(tier, seed)), ("reject", gen_reject(tier, seed))):
+        k = max(6, int(len(cs) * scale))
+        pick = cs if len(cs) <= k else rng.sample(cs, k)
+        out += pick; stats[name] = len(pick)
+    return out, stats
